@@ -79,6 +79,9 @@ def py_distance(case, container="numpy", fast=False):
         kw["inner_dist"] = CubeInner
     elif case.get("inner") == "pow":
         kw["inner_dist"] = PowInner(case["p"], case["mul"])
+    if case.get("psi_np") and isinstance(kw.get("psi"), int):
+        import numpy as _np
+        kw["psi"] = _np.int64(kw["psi"])          # an integer psi may arrive as a NumPy integer
     s1 = to_container(case["s1"], container, nd)
     s2 = to_container(case["s2"], container, nd)
     try:
